@@ -3,6 +3,7 @@ package c03
 import (
 	"context"
 	"encoding/hex"
+	"strings"
 	"testing"
 
 	"github.com/tetratelabs/wazero"
@@ -114,4 +115,48 @@ func TestImmMutate(t *testing.T) {
 		}
 	}
 	t.Logf("%d kinds: %v", len(kinds), kinds)
+}
+
+func TestIdxTemplate(t *testing.T) {
+	ctx := context.Background()
+	r := core.NewRng(3, 3)
+	kinds := map[string]int{}
+	for i := 0; i < 300; i++ {
+		b := IdxTemplate(r)
+		for e, rc := range []wazero.RuntimeConfig{wazero.NewRuntimeConfigInterpreter(), wazero.NewRuntimeConfigCompiler()} {
+			rt := wazero.NewRuntimeWithConfig(ctx, rc.WithCoreFeatures(fsBits[4]))
+			cm, err := rt.CompileModule(ctx, b)
+			if err != nil {
+				t.Fatalf("template %d rejected on engine %d: %v", i, e, err)
+			}
+			cm.Close(ctx)
+			rt.Close(ctx)
+		}
+		if w := Walk(b); !w.Complete {
+			t.Fatalf("walker incomplete on template")
+		}
+		for j := 0; j < 20; j++ {
+			_, rec, ok := IdxMutate(r, b)
+			if ok {
+				kinds[rec[:strings.LastIndexByte(rec, ':')]]++
+			}
+		}
+	}
+	t.Logf("%d kinds: %v", len(kinds), kinds)
+}
+
+func TestElemGlobalGetTag(t *testing.T) {
+	for _, c := range []struct {
+		hex  string
+		want bool
+	}{
+		{"0061736d0100000001040160000003020100040401700001060a017e0042f8acd191010b0707010372756e00000909010441000b0123000b0a0901070041001100000b", true},
+		{"0061736d010000000105016000017f020e01076d6f64756c65340166037d000302010004040170000a0716011263616c6c5f696d706f727465645f656c656d00000909010441000b0123000b0a0c010a01da017b41001100000b", true},
+		{"0061736d010000000105016000017f020e01076d6f64756c653401660370000302010004040170000a0909010441000b0123000b0a0901070041001100000b", false},
+	} {
+		b, _ := hex.DecodeString(c.hex)
+		if got := elemGlobalGetOfNonReference(b); got != c.want {
+			t.Errorf("%s...: got %v", c.hex[:30], got)
+		}
+	}
 }
